@@ -67,6 +67,9 @@ type Conn struct {
 
 	phase        int32 // set by harness while a handler runs
 	HandlerReads []ReadEvent
+	// EndReads counts Read calls issued after the whole script had been delivered: the server went
+	// back to waiting for the peer (instead of closing) that many times.
+	EndReads int
 
 	deadlineCalls int
 }
@@ -122,6 +125,7 @@ func (c *Conn) Read(p []byte) (int, error) {
 	c.reads++
 	inHandler := atomic.LoadInt32(&c.phase) != 0
 	if c.fi >= len(c.frags) {
+		c.EndReads++ // the server asked for more after everything had been delivered (it waits for the peer)
 		if inHandler {
 			c.HandlerReads = append(c.HandlerReads, ReadEvent{c.Delivered, 0})
 		}
